@@ -15,7 +15,7 @@ import (
 // / wire-tree round trips.
 func TestSelfConsistency(t *testing.T) {
 	rapid.Check(t, func(rt *rapid.T) {
-		s, _ := GenSchema(rt, GenOpts{Impl: true})
+		s, _ := GenSchema(rt, GenOpts{Impl: true, Unexp: true})
 		b, err := Build(&s)
 		if err != nil {
 			rt.Fatalf("build: %v", err)
